@@ -142,20 +142,39 @@ def run(prog: Program, res: Result, tier: str) -> None:
                 res.bad("R1", fn, ctor[0], f"ChannelStats normaliser is `{norm(ctor[0].args[1])}` = {p1.canon()}, expected the "
                         f"selected range length (header.nsamples-start if nsamps is None else nsamps): variance/skew/kurtosis "
                         f"of a sub-range are scaled by the wrong count", key=key)
+    check_push_data(prog, res, "R5")
+    res.assumptions += ["read_plan delivers the selected range exactly once in blocks of at most gulp samples (C01)",
+                        "sample values are integer-valued so that float32 sums are exact (property's own quantifier)"]
+    res.floor("R1", 5)
+    res.floor("R2", 3)
+    res.floor("R3", 3)
+    res.floor("R4", 6)
+    res.floor("R5", 13)
+
+
+def check_push_data(prog: Program, res, rule: str) -> None:
+    """Chunked feeding of the accumulator: each block and its index are pushed once; push_data forwards the index as the
+    first-chunk flag to the kernel of the chosen mode (shared with C10.R3)."""
+    for name, mode in (("compute_stats", "full"), ("compute_stats_basic", "basic")):
+        op = StreamOp(prog, prog.func(BASE, f"Filterbank.{name}"))
+        fn = op.fn
+        if len(op.loops) != 1:
+            raise AnalysisError(f"{name}: expected one read_plan loop")
+        lp = op.loops[0]
         pushes = [c for c in calls_in_body(fn.node) if isinstance(c.func, ast.Attribute) and c.func.attr == "push_data" and lp.in_body(c)]
         key = f"{name}:push"
         if len(pushes) != 1:
-            res.bad("R5", fn, lp.node, "expected one push_data per block", key=key)
+            res.bad(rule, fn, lp.node, "expected one push_data per block", key=key)
         else:
             c = pushes[0]
             md = [k.value for k in c.keywords if k.arg == "mode"] + c.args[2:3]
             okp = len(c.args) >= 2 and norm(c.args[0]) == lp.data and norm(c.args[1]) == lp.index and md and \
                 isinstance(md[0], ast.Constant) and md[0].value == mode
             if okp:
-                res.ok("R5", fn, c, f"each block and its index are pushed once (mode={mode}); block 0 initialises min/max", key=key)
+                res.ok(rule, fn, c, f"each block and its index are pushed once (mode={mode}); block 0 initialises min/max", key=key)
             else:
-                res.bad("R5", fn, c, f"push_data does not receive (this block, block index, mode={mode!r})", key=key)
-    # push_data forwards to the kernels with startflag = start_index
+                res.bad(rule, fn, c, f"push_data does not receive (this block, block index, mode={mode!r}): min/max are initialised from the "
+                        f"first sample exactly when the index is 0", key=key)
     pd = prog.func(STATS, "ChannelStats.push_data")
     want = {"compute_online_moments_basic": "basic", "compute_online_moments": "full"}
     seen = set()
@@ -168,24 +187,17 @@ def run(prog: Program, res: Result, tier: str) -> None:
             b = prog.bind_args(c, k)
             ok = norm(b.get("array", ast.Constant(None))) == "array" and norm(b.get("moments", ast.Constant(None))) == "self._moments" \
                 and norm(b.get("startflag", ast.Constant(None))) == "start_index"
-            # branch: basic kernel under mode == "basic"
             br = parent(parent(c))
             okbr = isinstance(br, ast.If) and norm(br.test) == "mode == 'basic'" and (
                 (nm == "compute_online_moments_basic") == any(c is x for s in br.body for x in ast.walk(s)))
             key = f"push_data:{nm}"
             if ok and okbr:
-                res.ok("R5", pd, c, f"{nm}(array, self._moments, startflag=start_index) on the {want[nm]} branch", key=key)
+                res.ok(rule, pd, c, f"{nm}(array, self._moments, startflag=start_index) on the {want[nm]} branch", key=key)
             else:
-                res.bad("R5", pd, c, f"push_data does not forward (array, moments, start_index) to {nm} on the {want[nm]} branch", key=key)
+                res.bad(rule, pd, c, f"push_data does not forward (array, moments, start_index) to {nm} on the {want[nm]} branch: without the index every "
+                        f"chunk re-seeds min/max", key=key)
     if seen != set(want):
         raise AnalysisError("push_data no longer calls both moment kernels")
-    res.assumptions += ["read_plan delivers the selected range exactly once in blocks of at most gulp samples (C01)",
-                        "sample values are integer-valued so that float32 sums are exact (property's own quantifier)"]
-    res.floor("R1", 5)
-    res.floor("R2", 3)
-    res.floor("R3", 3)
-    res.floor("R4", 6)
-    res.floor("R5", 13)
 
 
 def _size_rule(res, op: StreamOp, fn: FuncInfo, tag: str, alloc: ast.Call | None, want: Poly) -> None:
